@@ -108,3 +108,40 @@ Theorem C06_duplicates_pinv_partial :
       aget 0%R (fst (krige_raw Rops S Q Kinv cond chunk)) t = aget 0%R (fst (krige_raw Rops S Q Kinv cond' chunk)) t.
 Proof. exact duplicates_pinv. Qed.
 Print Assumptions C06_duplicates_pinv_partial.
+
+(* which lag counts as zero in exact mode: numpy.isclose(r, 0) with its default tolerances, |r| <= 1e-8 *)
+Theorem C06_zero_lag_window :
+  forall r : R, isclose0 Rops r = true <-> (Rabs r <= 1 / 100000000)%R.
+Proof. exact isclose0_true. Qed.
+Print Assumptions C06_zero_lag_window.
+
+(* the cond_err guard (set_cond_err models the setter all three routes end in): with exact = true only "nugget" is
+   accepted, and then every point carries the model nugget *)
+Theorem C06_exact_guard :
+  forall (exact : bool) (n : nat) (nugget : R) (ce : option (bool * list R)) (e : list R) (m : nat),
+    set_cond_err Rops exact n nugget ce = Some e -> exact = true -> (m < n)%nat ->
+    aget 0%R e m = nugget /\ ce = None.
+Proof. exact accepted_exact_err. Qed.
+Print Assumptions C06_exact_guard.
+
+(* every ACCEPTED exact setup (measurement errors produced by the guarded setter, covariance block with C_mm = var,
+   sill = var + nugget) reproduces the conditioning value with zero variance at a target on conditioning point m *)
+Theorem C06_exact_accepted :
+  forall (S : KSys R) (Q : KTgt R) (Kinv : list (list R)) (nr dn : R -> R)
+         (val ctrend cmean tmean ttrend : list R) (chunk t m : nat) (var nugget : R) (ce : option (bool * list R)),
+    set_cond_err Rops (ks_exact S) (ks_n S) nugget ce = Some (ks_err S) -> ks_exact S = true ->
+    aget2 0%R (ks_C S) m m = var -> ks_sill S = (var + nugget)%R ->
+    shape0 Kinv = ks_size S -> (1 <= chunk)%nat -> (t < kt_m Q)%nat ->
+    meq (ks_size S) (mmul (ks_size S) (mat_of Kinv) (kmat_entry Rops S)) delta ->
+    (m < ks_n S)%nat -> kt_only_mean Q = false ->
+    (forall i, (i < ks_n S)%nat -> aget2 0%R (kt_c0 Q) i t = aget2 0%R (ks_C S) i m) ->
+    (forall l, (l < ks_p S)%nat -> aget2 0%R (kt_drifts Q) l t = aget2 0%R (ks_drifts S) l m) ->
+    (Rabs (aget2 0 (kt_d0 Q) m t) <= 1 / 100000000)%R ->
+    (forall i, (i < ks_n S)%nat -> i <> m -> (1 / 100000000 < Rabs (aget2 0 (kt_d0 Q) i t))%R) ->
+    length val = ks_n S ->
+    aget 0%R tmean t = aget 0%R cmean m -> aget 0%R ttrend t = aget 0%R ctrend m ->
+    dn (nr (aget 0 val m - aget 0 ctrend m)%R) = (aget 0 val m - aget 0 ctrend m)%R ->
+    let r := krige_call Rops S Q Kinv nr dn val ctrend cmean tmean ttrend chunk in
+    aget 0%R (fst r) t = aget 0%R val m /\ aget 0%R (snd r) t = 0%R.
+Proof. exact exact_accepted. Qed.
+Print Assumptions C06_exact_accepted.
